@@ -8,6 +8,8 @@
   documented adjusted values, and the executable predicate `PopSpec.expectedWhy` holds of the model's result.
 -/
 import GoNeat.Proofs.ExpectedChain
+import GoNeat.Proofs.Exact
+import GoNeat.Spec.PopInv
 
 namespace GoNeat.C09
 open GoNeat Scalar
@@ -41,35 +43,24 @@ theorem prepare_expected_full (o : EpochOpts W) (p p1 : Pop W) (ex : ExecState) 
       x.originalFitness = x0.fitness ∧ x.fitness = adjustedFitness o s0 x.originalFitness ∧
       x.expectedOffspring =
         (if eq (popMeanAdjusted o p) zero then x0.expectedOffspring else div x.fitness (popMeanAdjusted o p)) := by
-  obtain ⟨species1, mid, doomed, hadj, hsub, hsp⟩ := prepare_xkeys o p p1 ex rs rs' hnd h
+  obtain ⟨species1, hadj, hall⟩ := prepare_orgs o p p1 ex rs rs' hnd h
   have hm : popMeanAdjusted o p = popMean ({ p with species := species1 } : Pop W) := by
     unfold popMeanAdjusted; rw [hadj]
   rw [hm]
-  generalize popMean ({ p with species := species1 } : Pop W) = m at hsub
+  generalize popMean ({ p with species := species1 } : Pop W) = m at hall
   intro s1 hs1
-  rw [hsp] at hs1
-  obtain ⟨s, hs, rfl⟩ := List.mem_map.mp hs1
-  have hk := hsub.subset (List.mem_map_of_mem (f := xkey) hs)
-  simp only [List.map_map, List.mem_map, Function.comp] at hk
-  obtain ⟨sa, hsa, hka⟩ := hk
+  obtain ⟨sa, hsa, hid1, hmem⟩ := hall s1 hs1
   obtain ⟨s0, hs0, hadj0⟩ := adjustAll_mem o _ _ hadj sa hsa
   obtain ⟨hid, horgs⟩ := adjustFitness_orgs o s0 sa hadj0
-  simp only [xkey, Prod.mk.injEq] at hka
-  obtain ⟨hka1, hka2⟩ := hka
-  refine ⟨s0, hs0, by rw [← hid]; exact hka1.symm, ?_⟩
+  refine ⟨s0, hs0, by rw [hid1, hid], ?_⟩
   intro x hx
-  have hx' : x ∈ s.orgs := (List.mem_filter.mp hx).1
-  have hxk : okey x ∈ s.orgs.map okey := List.mem_map_of_mem hx'
-  rw [← hka2, List.map_map] at hxk
-  obtain ⟨xa, hxa, hxe⟩ := List.mem_map.mp hxk
+  obtain ⟨xa, hxa, hxe⟩ := hmem x hx
   obtain ⟨x0, hx0, e1, e2, e3, e4⟩ := horgs xa hxa
-  simp only [Function.comp, okey, Prod.mk.injEq] at hxe
+  simp only [okey, Prod.mk.injEq] at hxe
   obtain ⟨k1, k2, k3, k4⟩ := hxe
-  have hf : (setExp m xa).fitness = xa.fitness := by unfold setExp; split <;> rfl
-  have ho : (setExp m xa).originalFitness = xa.originalFitness := by unfold setExp; split <;> rfl
-  have hu : (setExp m xa).uid = xa.uid := by unfold setExp; split <;> rfl
-  refine ⟨x0, hx0, by rw [← k1, hu, e1], by rw [← k3, ho, e2], by rw [← k3, ho, e2, ← k2, hf, e3], ?_⟩
-  rw [← k4, ← k2, hf]
+  obtain ⟨hu, hf, ho⟩ := setExp_okey m xa
+  refine ⟨x0, hx0, by rw [k1, hu, e1], by rw [k3, ho, e2], by rw [k3, ho, e2, k2, hf, e3], ?_⟩
+  rw [k4, k2, hf]
   unfold setExp
   split
   · exact e4
@@ -110,5 +101,219 @@ theorem prepare_expected_zero_mean (o : EpochOpts W) (p p1 : Pop W) (ex : ExecSt
   obtain ⟨x0, hx0, e1, e2, e3, e4⟩ := hx x hxm
   rw [hm] at e4
   exact ⟨e3, x0, hx0, e1.symm, e2.symm, e4⟩
+
+/-! ### Kind B: exact ordered-field arithmetic (`exactScalar`) -/
+section KindB
+variable {K : Type} [Field K] [LinearOrder K] [IsStrictOrderedRing K] [FloorRing K]
+
+/-- the documented adjusted fitness is never negative (negative values are replaced by 0.0001 before the sharing) -/
+theorem adjustedFitness_nonneg (o : EpochOpts K) (s : Species K) (f : K) : 0 ≤ adjustedFitness o s f := by
+  have hclamp : ∀ f2 : K, 0 ≤ (if Scalar.lt f2 Scalar.zero then Scalar.ofDec 1 4 else f2) := by
+    intro f2
+    simp only [Exact.lt_eq, Exact.zero_eq, decide_eq_true_eq]
+    split
+    · show (0 : K) ≤ ((1 : Nat) : K) / (10 : K) ^ 4
+      exact div_nonneg (Nat.cast_nonneg _) (pow_nonneg (by norm_num) _)
+    · rename_i hlt; exact le_of_not_gt hlt
+  unfold adjustedFitness
+  simp only [Exact.div_eq, Exact.ofInt_eq]
+  exact div_nonneg (hclamp _) (Int.cast_nonneg (Int.natCast_nonneg _))
+
+omit [FloorRing K] in
+theorem foldl_add_ge {α : Type} (f : α → K) (l : List α) (a : K) (hnn : ∀ y ∈ l, 0 ≤ f y) :
+    a ≤ l.foldl (fun acc y => acc + f y) a ∧ ∀ x ∈ l, a + f x ≤ l.foldl (fun acc y => acc + f y) a := by
+  induction l generalizing a with
+  | nil => exact ⟨le_refl _, by intro x hx; cases hx⟩
+  | cons y ys ih =>
+    have hy := hnn y (by simp)
+    obtain ⟨i1, i2⟩ := ih (a + f y) (fun z hz => hnn z (by simp [hz]))
+    simp only [List.foldl_cons]
+    refine ⟨by linarith, ?_⟩
+    intro x hx
+    rcases List.mem_cons.mp hx with rfl | hx'
+    · exact i1
+    · have := i2 x hx'
+      linarith
+
+/-- members of the adjusted species have non-negative fitness -/
+theorem adjustAll_fitness_nonneg (o : EpochOpts K) (ss species1 : List (Species K)) (hadj : adjustAll o ss = .ok species1) :
+    ∀ sa ∈ species1, ∀ xa ∈ sa.orgs, 0 ≤ xa.fitness := by
+  intro sa hsa xa hxa
+  obtain ⟨s0, _, hadj0⟩ := adjustAll_mem o _ _ hadj sa hsa
+  obtain ⟨x0, _, _, _, e3, _⟩ := (adjustFitness_orgs o s0 sa hadj0).2 xa hxa
+  rw [e3]; exact adjustedFitness_nonneg o s0 _
+
+theorem popMean_exact (q : Pop K) :
+    popMean q = q.orgList.foldl (fun acc x => acc + x.fitness) 0 / ((q.organisms.length : Nat) : K) := by
+  unfold popMean
+  simp only [Exact.div_eq, Exact.ofInt_eq, Exact.add_eq, Exact.zero_eq, Int.cast_natCast]
+
+/-- **the mean is never negative** (exact arithmetic) -/
+theorem popMeanAdjusted_nonneg (o : EpochOpts K) (p : Pop K) : 0 ≤ popMeanAdjusted o p := by
+  unfold popMeanAdjusted
+  split
+  · rename_i species1 hadj
+    rw [popMean_exact]
+    refine div_nonneg (foldl_add_ge (fun x : Org K => x.fitness) _ 0 ?_).1 (Nat.cast_nonneg _)
+    intro y hy
+    obtain ⟨sa, hsa, hya⟩ := orgList_mem _ y hy
+    exact adjustAll_fitness_nonneg o _ _ hadj sa hsa y hya
+  · exact le_refl _
+
+/-- in a consistently allocated population with pairwise distinct organisms, a member of an adjusted species with
+    positive fitness makes the mean positive -/
+theorem popMeanAdjusted_pos (o : EpochOpts K) (p : Pop K) (species1 : List (Species K))
+    (hu : C02.UidInv p) (hundup : (C02.orgUids p.species).Nodup) (hadj : adjustAll o p.species = .ok species1)
+    (sa : Species K) (hsa : sa ∈ species1) (xa : Org K) (hxa : xa ∈ sa.orgs) (hpos : 0 < xa.fitness) :
+    0 < popMeanAdjusted o p := by
+  have hperm := C02.adjustAll_uids o _ _ hadj
+  have hin : xa ∈ ({ p with species := species1 } : Pop K).orgList :=
+    mem_orgList ({ p with species := species1 } : Pop K) (fun u hu' => hu.listed u (hperm.subset hu')) (hperm.nodup_iff.mpr hundup) sa hsa xa hxa
+  have hm : popMeanAdjusted o p = popMean ({ p with species := species1 } : Pop K) := by
+    unfold popMeanAdjusted; rw [hadj]
+  rw [hm, popMean_exact]
+  have hnn : ∀ y ∈ ({ p with species := species1 } : Pop K).orgList, 0 ≤ (fun x : Org K => x.fitness) y := by
+    intro y hy
+    obtain ⟨sb, hsb, hyb⟩ := orgList_mem _ y hy
+    exact adjustAll_fitness_nonneg o _ _ hadj sb hsb y hyb
+  have hsum := (foldl_add_ge (fun x : Org K => x.fitness) _ 0 hnn).2 xa hin
+  simp only [zero_add] at hsum
+  apply div_pos (lt_of_lt_of_le hpos hsum)
+  -- the organism list is not empty
+  have hne : p.organisms ≠ [] := by
+    intro he
+    unfold Pop.orgList at hin
+    simp only [he, List.filterMap_nil, List.not_mem_nil] at hin
+  have : 0 < p.organisms.length := List.length_pos_iff.mpr hne
+  exact_mod_cast this
+
+/-- what the Kind-B corollaries use: every organism left as a parent has `fitness ≥ 0`, and its expected offspring is
+    `fitness / m` or (zero mean) untouched; with the allocation hypotheses a positive fitness forces `m > 0` -/
+theorem prepare_expected_exact (o : EpochOpts K) (p p1 : Pop K) (ex : ExecState) (rs rs' : List Nat)
+    (hnd : (p.species.map (·.id)).Nodup) (h : prepareForReproduction o p rs = .ok ((p1, ex), rs')) :
+    ∀ s1 ∈ p1.species, ∀ x ∈ s1.orgs, 0 ≤ x.fitness ∧
+      (popMeanAdjusted o p ≠ 0 → x.expectedOffspring = x.fitness / popMeanAdjusted o p) ∧
+      (C02.UidInv p → (C02.orgUids p.species).Nodup → 0 < x.fitness → 0 < popMeanAdjusted o p) := by
+  obtain ⟨species1, hadj, hall⟩ := prepare_orgs o p p1 ex rs rs' hnd h
+  intro s1 hs1 x hx
+  obtain ⟨sa, hsa, _, hmem⟩ := hall s1 hs1
+  obtain ⟨xa, hxa, hxe⟩ := hmem x hx
+  simp only [okey, Prod.mk.injEq] at hxe
+  obtain ⟨_, k2, _, _⟩ := hxe
+  rw [(setExp_okey _ xa).2.1] at k2
+  refine ⟨by rw [k2]; exact adjustAll_fitness_nonneg o _ _ hadj sa hsa xa hxa, ?_, ?_⟩
+  · intro hm
+    obtain ⟨s0, _, _, hx0⟩ := prepare_expected_full o p p1 ex rs rs' hnd h s1 hs1
+    obtain ⟨x0, _, _, _, _, e4⟩ := hx0 x hx
+    have : Scalar.eq (popMeanAdjusted o p) Scalar.zero = false := by simpa using hm
+    rw [this] at e4
+    exact e4
+  · intro hu hundup hpos
+    exact popMeanAdjusted_pos o p species1 hu hundup hadj sa hsa xa hxa (by rw [← k2]; exact hpos)
+
+/-- **C09 (Kind B): one population-wide factor.** If the mean is not zero, the expected offspring of the organisms left
+    as parents are proportional to their shared, age-adjusted fitness: `e_x · f_y = e_y · f_x`. -/
+theorem prepare_expected_proportional (o : EpochOpts K) (p p1 : Pop K) (ex : ExecState) (rs rs' : List Nat)
+    (hnd : (p.species.map (·.id)).Nodup) (h : prepareForReproduction o p rs = .ok ((p1, ex), rs'))
+    (hm : popMeanAdjusted o p ≠ 0) :
+    ∀ s1 ∈ p1.species, ∀ x ∈ s1.orgs, ∀ s2 ∈ p1.species, ∀ y ∈ s2.orgs,
+      x.expectedOffspring * y.fitness = y.expectedOffspring * x.fitness := by
+  intro s1 hs1 x hx s2 hs2 y hy
+  have hx' := (prepare_expected_exact o p p1 ex rs rs' hnd h s1 hs1 x hx).2.1 hm
+  have hy' := (prepare_expected_exact o p p1 ex rs rs' hnd h s2 hs2 y hy).2.1 hm
+  rw [hx', hy']; ring
+
+/-- **C09 (Kind B): positive fitness, positive expectation.** With a positive mean, an organism with positive adjusted
+    fitness has a positive expected offspring. -/
+theorem prepare_expected_pos (o : EpochOpts K) (p p1 : Pop K) (ex : ExecState) (rs rs' : List Nat)
+    (hnd : (p.species.map (·.id)).Nodup) (h : prepareForReproduction o p rs = .ok ((p1, ex), rs'))
+    (hm : 0 < popMeanAdjusted o p) :
+    ∀ s1 ∈ p1.species, ∀ x ∈ s1.orgs, 0 < x.fitness → 0 < x.expectedOffspring := by
+  intro s1 hs1 x hx hpos
+  rw [(prepare_expected_exact o p p1 ex rs rs' hnd h s1 hs1 x hx).2.1 (ne_of_gt hm)]
+  exact div_pos hpos hm
+
+/-- **C09 (Kind B), no side condition on the mean.** For a consistently allocated population with pairwise distinct
+    organisms: after the preparation phase an organism with positive adjusted fitness has a positive expected offspring
+    (the mean is then positive), and the expected offspring of any two organisms are proportional to their adjusted
+    fitness (if the mean is zero, all adjusted fitness values are zero). -/
+theorem prepare_expected_all (o : EpochOpts K) (p p1 : Pop K) (ex : ExecState) (rs rs' : List Nat)
+    (hnd : (p.species.map (·.id)).Nodup) (hu : C02.UidInv p) (hundup : (C02.orgUids p.species).Nodup)
+    (h : prepareForReproduction o p rs = .ok ((p1, ex), rs')) :
+    (∀ s1 ∈ p1.species, ∀ x ∈ s1.orgs, 0 < x.fitness → 0 < x.expectedOffspring) ∧
+    (∀ s1 ∈ p1.species, ∀ x ∈ s1.orgs, ∀ s2 ∈ p1.species, ∀ y ∈ s2.orgs,
+      x.expectedOffspring * y.fitness = y.expectedOffspring * x.fitness) := by
+  have hE := prepare_expected_exact o p p1 ex rs rs' hnd h
+  constructor
+  · intro s1 hs1 x hx hpos
+    exact prepare_expected_pos o p p1 ex rs rs' hnd h ((hE s1 hs1 x hx).2.2 hu hundup hpos) s1 hs1 x hx hpos
+  · by_cases hm : popMeanAdjusted o p = 0
+    · -- zero mean: every adjusted fitness is zero
+      have hz : ∀ s1 ∈ p1.species, ∀ x ∈ s1.orgs, x.fitness = 0 := by
+        intro s1 hs1 x hx
+        obtain ⟨h0, _, h2⟩ := hE s1 hs1 x hx
+        rcases eq_or_lt_of_le h0 with e | hlt
+        · exact e.symm
+        · have := h2 hu hundup hlt
+          rw [hm] at this
+          exact absurd this (lt_irrefl _)
+      intro s1 hs1 x hx s2 hs2 y hy
+      rw [hz s1 hs1 x hx, hz s2 hs2 y hy]; ring
+    · exact prepare_expected_proportional o p p1 ex rs rs' hnd h hm
+
+/-- the executable predicate `PopSpec.expectedWhy` (evaluated by the driver on the implementation's state) accepts every
+    population in which positive fitness implies positive expectation and expectations are exactly proportional -/
+theorem expectedWhy_of (p1 : Pop K)
+    (hpos : ∀ x ∈ p1.species.flatMap (·.orgs), 0 < x.fitness → 0 < x.expectedOffspring)
+    (hprop : ∀ x ∈ p1.species.flatMap (·.orgs), ∀ r ∈ p1.species.flatMap (·.orgs),
+      x.expectedOffspring * r.fitness = r.expectedOffspring * x.fitness) :
+    PopSpec.expectedWhy p1 = "" := by
+  unfold PopSpec.expectedWhy
+  simp only
+  have h1 : (p1.species.flatMap (·.orgs)).find? (fun x => Scalar.lt Scalar.zero x.fitness && !Scalar.lt Scalar.zero x.expectedOffspring) = none := by
+    rw [List.find?_eq_none]
+    intro x hx
+    simp only [Exact.lt_eq, Exact.zero_eq, Bool.and_eq_true, decide_eq_true_eq, Bool.not_eq_true', decide_eq_false_iff_not,
+      not_and, not_not]
+    exact hpos x hx
+  rw [h1]
+  simp only
+  split
+  · rfl
+  · rename_i r hr
+    have hrm := List.mem_of_find?_eq_some hr
+    have h2 : (p1.species.flatMap (·.orgs)).find? (fun x =>
+          Scalar.lt (Scalar.mul (Scalar.ofDec 1 9) (Scalar.add (Scalar.abs (Scalar.mul x.expectedOffspring r.fitness))
+            (Scalar.abs (Scalar.mul r.expectedOffspring x.fitness))))
+            (Scalar.abs (Scalar.sub (Scalar.mul x.expectedOffspring r.fitness) (Scalar.mul r.expectedOffspring x.fitness)))) = none := by
+      rw [List.find?_eq_none]
+      intro x hx
+      simp only [Exact.lt_eq, Exact.mul_eq, Exact.add_eq, Exact.abs_eq, Exact.sub_eq, decide_eq_true_eq, not_lt]
+      rw [hprop x hx r hrm, sub_self, abs_zero]
+      apply mul_nonneg
+      · show (0 : K) ≤ ((1 : Nat) : K) / (10 : K) ^ 9
+        exact div_nonneg (Nat.cast_nonneg _) (pow_nonneg (by norm_num) _)
+      · exact add_nonneg (abs_nonneg _) (abs_nonneg _)
+    rw [h2]
+
+/-- **C09 (Kind B): the model passes the executable predicate.** For a consistently allocated population with pairwise
+    distinct organisms and unique species ids, in exact arithmetic, the population returned by the model's preparation
+    phase satisfies `PopSpec.expectedWhy` — the predicate the driver evaluates on the implementation's own numbers
+    (there with the relative tolerance 1e-9 the predicate allows for float64 rounding; here the two sides are equal). -/
+theorem expectedWhy_model (o : EpochOpts K) (p p1 : Pop K) (ex : ExecState) (rs rs' : List Nat)
+    (hnd : (p.species.map (·.id)).Nodup) (hu : C02.UidInv p) (hundup : (C02.orgUids p.species).Nodup)
+    (h : prepareForReproduction o p rs = .ok ((p1, ex), rs')) :
+    PopSpec.expectedWhy p1 = "" := by
+  obtain ⟨hp, hq⟩ := prepare_expected_all o p p1 ex rs rs' hnd hu hundup h
+  apply expectedWhy_of
+  · intro x hx
+    obtain ⟨s1, hs1, hx1⟩ := List.mem_flatMap.mp hx
+    exact hp s1 hs1 x hx1
+  · intro x hx r hr
+    obtain ⟨s1, hs1, hx1⟩ := List.mem_flatMap.mp hx
+    obtain ⟨s2, hs2, hr2⟩ := List.mem_flatMap.mp hr
+    exact hq s1 hs1 x hx1 s2 hs2 r hr2
+
+end KindB
 
 end GoNeat.C09
